@@ -2,7 +2,7 @@ import TakVerif.Impl.Position
 
 /-! The board invariant that the game-end theorems (C02) assume, as an executable test, so that the
 correspondence run can evaluate it on every sampled position (op `wfb`).
-`Roads.wfBoardB_iff` proves it equivalent to the `Prop`-level `Roads.WFBoard ∧ Roads.ReservesOK`. -/
+`Roads.wfBoardB_iff` proves it equivalent to the `Prop`-level `Roads.WFBoard`. -/
 namespace Tak
 
 /-- `x ⊆ y` on bitboards -/
@@ -15,8 +15,6 @@ def Pos.wfBoardB (p : Pos) : Bool :=
   (p.white &&& p.black == 0#64) &&
   subB (p.standing ||| p.caps) (p.white ||| p.black) &&
   (p.standing &&& p.caps == 0#64) &&
-  (p.analyze == some p) &&
-  decide (p.whiteStones.toNat + p.whiteCaps.toNat < 256) &&
-  decide (p.blackStones.toNat + p.blackCaps.toNat < 256)
+  (p.analyze == some p)
 
 end Tak
